@@ -177,3 +177,54 @@ func VerifH_C04_notify() {
 	cancel()
 	c.checkLinked("notify")
 }
+
+// VerifH_C04_subscriptions: several listeners registered and cancelled in any
+// order: at a tip change every listener that is registered and not cancelled is
+// called exactly once, cancelled ones are not called, and a cancel function
+// removes only its own listener. OnReorg keys come from frand (arbitrary
+// bytes here); two live listeners are assumed to get different keys.
+//
+//verif:harness prop=C04 tier=quick replay=interp z3timeout=400 require=notified bounds="up to 3 registrations interleaved with up to 2 cancellations in any order, then one tip change"
+func VerifH_C04_subscriptions() {
+	c := newAbsChain()
+	c.buildTree(1, 0)
+	var calls [3]int
+	var cancels [3]func()
+	live := [3]bool{}
+	registered := 0
+	for step := 0; step < 5; step++ {
+		op := vapi.Int("op", 0, 2) // register, cancel one, done
+		if op == 2 {
+			break
+		}
+		if op == 0 {
+			if registered == 3 {
+				vapi.Assume(false)
+			}
+			k := registered
+			cancels[k] = c.m.OnReorg(func(types.ChainIndex) { calls[k]++ })
+			live[k] = true
+			registered++
+		} else {
+			if registered == 0 {
+				vapi.Assume(false)
+			}
+			k := vapi.Int("which", 0, registered-1)
+			vapi.Assume(live[k])
+			cancels[k]()
+			live[k] = false
+		}
+	}
+	pre := c.m.Tip()
+	b := c.newBlock(absNonce(pre.ID), true)
+	vapi.Assume(times5(absW.work[b.Nonce]) > uint64(c.m.TipState().OakTime))
+	vapi.Assert("subs.block", c.m.AddBlocks([]types.Block{b}) == nil && c.m.Tip() != pre)
+	for k := 0; k < 3; k++ {
+		if live[k] {
+			vapi.Assert("subs.live-listener-called-once", calls[k] == 1)
+			vapi.Reach("notified")
+		} else {
+			vapi.Assert("subs.cancelled-listener-not-called", calls[k] == 0)
+		}
+	}
+}
